@@ -684,7 +684,13 @@ func c05GenScn(t *rapid.T, o c05GenOpt, excludedCase func(id string)) *c05Scn {
 			first = c05DNSGarbageFrame(rapid.IntRange(4095, 9000).Draw(t, "oversize"), seed)
 			must = []int{1, 2, 4095, 4096, 4097}
 		case "dns-length-edge": // declared frame length at the edges of the 16-bit field and of bufio's 4096-byte buffer
-			declared := rapid.SampledFrom([]int{0xffff, 0xfffe, 0xfffd, 0x8000, 0x7fff, 4097, 4096, 4095, 4094, 4093}).Draw(t, "edgeLen")
+			edges := []int{0xffff, 0xfffe, 0xfffd, 0x8000, 0x7fff, 4097, 4096, 4095}
+			if o.Mem {
+				// frames that fit the 4096-byte buffer make the detection wait for the rest
+				// (up to its 5 s window): virtual clock only, loopback runs stay short
+				edges = append(edges, 4094, 4093)
+			}
+			declared := rapid.SampledFrom(edges).Draw(t, "edgeLen")
 			first = make([]byte, 2, 2+5000)
 			binary.BigEndian.PutUint16(first, uint16(declared))
 			first = append(first, c05Fill(seed, rapid.IntRange(0, 5000).Draw(t, "edgeTail"))...)
